@@ -79,11 +79,51 @@ def run_task(prog, tid, params, tier):
               '    report(check_ingest(&mgr, &recs, &service, &own));', '}']
         return '\n'.join(L)
 
+    def reply_wire_case(res, m):
+        I = res.interp
+        pool = I.pool
+        L = ['#[test]', 'fn verif_case() {', '    let mut mgr = ResourceRecordManager::new();']
+        for (kind, owner, rtype, extra, rec) in I.rw['recs']:
+            ttl, flush = VG.ev(m, rec.f[2]), 'true' if VG.ev(m, rec.f[4]) else 'false'
+            rd = rec.f[3].f[0]
+            if rtype == 'A':
+                rds = 'RData::A(A { address: %d })' % VG.ev(m, rd.f[0])
+            elif rtype == 'SRV':
+                rds = 'RData::SRV(SRV { priority: 0, weight: 0, port: %d, target: %s })' % (VG.ev(m, rd.f[2]), rs_name(m, pool, extra))
+            else:
+                bs = I.seq_list(rd.f[0].items[0].f[0])
+                rds = 'RData::TXT(TXT::new().with_char_string(CharacterString::new(&[%s]).unwrap()))' % ', '.join(str(VG.ev(m, b)) for b in bs)
+            L.append('    mgr.%s(rec(%s, CLASS::IN, %d, %s, %s));' % ('add_authoritative_resource' if kind == 'auth' else 'add_cached_resource',
+                                                                  rs_name(m, pool, owner), ttl, flush, rds))
+        L.append('    let mut query = Packet::new_query(7);')
+        for (qn, qt, qc, uni) in I.rw['qs']:
+            qts = 'QTYPE::ANY' if qt == 'ANY' else 'QTYPE::TYPE(TYPE::%s)' % qt
+            qcs = 'QCLASS::ANY' if qc == 'ANY' else 'QCLASS::CLASS(CLASS::%s)' % qc
+            L.append('    query.questions.push(Question::new(%s, %s, %s, %s));' % (rs_name(m, pool, qn), qts, qcs, 'true' if VG.ev(m, uni) else 'false'))
+        L += ['    let mgr: &\'static ResourceRecordManager<\'static> = Box::leak(Box::new(mgr));',
+              '    let mut fails = Vec::new();',
+              '    if let Some((reply, _)) = crate::build_reply(query, mgr) {',
+              '        match reply.build_bytes_vec_compressed() {',
+              '            Ok(bytes) => match Packet::parse(&bytes) {',
+              '                Ok(p) => if format!("{:?}", p) != format!("{:?}", reply) { fails.push("reply-eq"); },',
+              '                Err(_) => fails.push("reply-parse"),',
+              '            },',
+              '            Err(_) => fails.push("reply-build"),',
+              '        }',
+              '    }',
+              '    report(fails);', '}']
+        return '\n'.join(L)
+
     def viol(res, role, what, extra=None):
         m = res.ctx.model()
         pool = getattr(res.interp, 'pool', None)
         labs = {k: [VG.ev(m, b) for b in v] for k, v in pool.lab.items()} if pool else {}
         cex = {'entry': 'mdns-pipeline-no-native-entry', 'task': tid, 'labels': labs}
+        if part == 'reply_wire' and hasattr(res.interp, 'rw'):
+            try:
+                cex.update({'entry': 'mdns_test', 'code': reply_wire_case(res, m), 'expect': {'any_failure': True}})
+            except Exception as e:      # noqa
+                cex['code_error'] = repr(e)
         if part == 'ingest' and hasattr(res.interp, 'recs'):
             try:
                 cex.update({'entry': 'mdns_test', 'code': ingest_case(res, m), 'expect': {'any_failure': True}})
@@ -204,6 +244,7 @@ def run_task(prog, tid, params, tier):
             pool = I.pool = Pool(prog, I)
             g = pool.g
             mgr = I.new_ref(I.call_function(f_new, [], {}), 'mgr')
+            I.rw = {'recs': [], 'qs': []}
             for k, (kind, owner, rtype, extra) in enumerate(sc['ops']):
                 if rtype == 'A':
                     rd = En('RData', 'A', (g.struct('A', address=g.fresh('u32', 'addr%d' % k)),))
@@ -214,12 +255,15 @@ def run_task(prog, tid, params, tier):
                     rd = En('RData', 'TXT', (g.struct('TXT', strings=VecV([c]), size=mk('usize', 2)),))
                 rec = g.struct('ResourceRecord', name=pool.name(owner), **{'class': En('CLASS', 'IN')}, ttl=g.fresh('u32', 'ttl%d' % k),
                                rdata=rd, cache_flush=g.fresh('bool', 'fl%d' % k))
+                I.rw['recs'].append((kind, owner, rtype, extra, rec))
                 I.call_function(f_add_a if kind == 'auth' else f_add_c, [mgr, rec], {})
             qs = []
             for k, (qn, qt, qc) in enumerate(sc['q']):
                 qtype = En('QTYPE', 'ANY') if qt == 'ANY' else En('QTYPE', 'TYPE', (En('TYPE', qt),))
                 qclass = En('QCLASS', 'ANY') if qc == 'ANY' else En('QCLASS', 'CLASS', (En('CLASS', qc),))
-                qs.append(g.struct('Question', qname=pool.name(qn), qtype=qtype, qclass=qclass, unicast_response=g.fresh('bool', 'uni%d' % k)))
+                uni_ = g.fresh('bool', 'uni%d' % k)
+                I.rw['qs'].append((qn, qt, qc, uni_))
+                qs.append(g.struct('Question', qname=pool.name(qn), qtype=qtype, qclass=qclass, unicast_response=uni_))
             hdr = g.struct('Header', id=g.fresh('u16', 'id'), opcode=En('OPCODE', 'StandardQuery'), response_code=En('RCODE', 'NoError'),
                            z_flags=Agg('PacketFlag', (Agg('InternalBitFlags', (mk('u16', 0),)),)), opt=NONE)
             pkt = g.struct('Packet', header=hdr, questions=VecV(qs), answers=VecV(()), name_servers=VecV(()), additional_records=VecV(()))
